@@ -96,12 +96,15 @@ def read_packets(path):
 def run(binp, args, timeout=120, tag=None, env=None):
     """args: dict of scenario keys; cfg overrides as {'f:<field name>': value}. Returns dict(outcome, hist, prefix, wall)."""
     a = {}
+    env = dict(env or {})
     for k, v in args.items():
-        if k.startswith('f:'):
+        if k.startswith('env:'):
+            env[k[4:]] = str(v)
+        elif k.startswith('f:'):
             a['f%d' % field_index(k[2:])] = v
         else:
             a[k] = v
-    key = hashlib.sha1((binp + json.dumps(a, sort_keys=True)).encode()).hexdigest()[:16]
+    key = hashlib.sha1((binp + json.dumps(a, sort_keys=True) + json.dumps(env, sort_keys=True)).encode()).hexdigest()[:16]
     d = os.path.join(SCN_DIR, 'runs'); os.makedirs(d, exist_ok=True)
     prefix = os.path.join(d, (tag or 's') + '_' + key)
     for ext in ('.hist', '.pkts'):
